@@ -792,8 +792,8 @@ func c21Spaces(r *vrt.R) []c21Space {
 				}
 			}
 		}})
-	rlen := vrt.Pick(r, 2, 3)
-	sp = append(sp, c21Space{fmt.Sprintf("K2: one Client.DoRedirects call: every start URL x every chain of 1..%d redirect targets (http<->https, other host, other port)", rlen),
+	rlen := vrt.Pick(r, 1, 3)
+	sp = append(sp, c21Space{fmt.Sprintf("K2: one Client.DoRedirects call: every start URL x every chain of 1..%d redirect targets over all URLs (http<->https, other host, other port); plus start x target x second target on hosta", rlen),
 		func(yield func(*c21Case) bool) {
 			for n := 2; n <= rlen+1; n++ {
 				ok := seqx.Product(dimsN(n, ns), -1, func(x []int) bool {
@@ -808,6 +808,15 @@ func c21Spaces(r *vrt.R) []c21Space {
 					return
 				}
 			}
+			if rlen >= 2 {
+				return
+			}
+			sa := c21Symbols([]string{"hosta"})
+			seqx.Product([]int{ns, ns, len(sa)}, -1, func(x []int) bool {
+				op := c21Op{Via: "DoRedirects", T: sym[x[0]], Redir: []c21Target{sym[x[1]], sa[x[2]]}}
+				cs := c21Case{Client: "Client", Hook: "Dial", Verify: "skip", Ops: []c21Op{op}}
+				return yield(&cs)
+			})
 		}})
 	sp = append(sp, c21Space{"K2b: Client: Do u1, then DoRedirects u2=>u3, then Do u1 again (pooled connections of both schemes), u1,u2,u3 over hosta URLs",
 		func(yield func(*c21Case) bool) {
